@@ -293,6 +293,13 @@ func (index *PatternIndex) mod(ctx *Context, pairs []piPair, id string, op piOp)
 	k := pair.key
 	v := pair.val
 
+	if isOptionalVariable(v) {
+		// An optional field ("likes":"??x") need not be in the
+		// event, so the pattern must not be filed under it: a
+		// search only follows the keys the event has.
+		return index.mod(ctx, rest, id, op)
+	}
+
 	var ki *PatternIndex
 
 	if strings.HasPrefix(k, "?") {
